@@ -64,6 +64,6 @@ Proof.
   intros Hc H. destruct (commit_journal_file s commit s' H) as [f [E1 [E2 [E3 [E4 _]]]]].
   exists f. repeat split; try assumption; try congruence.
   clear -H. unfold op_commit_journal in H. destruct (writeable s); cbn [negb] in H; [|discriminate].
-  destruct (journal_pages _ _ _); [|discriminate]. destruct (checksum _ _ _) as [[post|] s2]; [|discriminate].
+  destruct (journal_pages _ _ _) as [[pages|] sj]; [|discriminate]. destruct (checksum _ _ _) as [[post|] s2]; [|discriminate].
   inversion H; subst. reflexivity.
 Qed.
